@@ -6,6 +6,8 @@ package svc
 
 import (
 	"fmt"
+	"image"
+	"image/png"
 	"net"
 	"os"
 	"path/filepath"
@@ -27,7 +29,7 @@ type PortSpec struct {
 }
 
 var Ports = []PortSpec{
-	{Key: "ftp", Type: "ftp", Port: 21, TCP: true, Extra: "fs_base=%q\n"},
+	{Key: "ftp", Type: "ftp", Port: 21, TCP: true, Extra: "fs_base=\"{FS}\"\n"},
 	{Key: "ssh-simulator", Type: "ssh-simulator", Port: 22, TCP: true, Extra: "credentials=[\"root:root\", \"admin:123456\"]\n"},
 	{Key: "telnet", Type: "telnet", Port: 23, TCP: true},
 	{Key: "smtp", Type: "smtp", Port: 25, TCP: true},
@@ -42,7 +44,7 @@ var Ports = []PortSpec{
 	{Key: "ssh-auth", Type: "ssh-auth", Port: 2222, TCP: true},
 	{Key: "docker", Type: "docker", Port: 2375, TCP: true},
 	{Key: "adb", Type: "adb", Port: 5555, TCP: true},
-	{Key: "vnc", Type: "vnc", Port: 5900, TCP: true},
+	{Key: "vnc", Type: "vnc", Port: 5900, TCP: true, Extra: "image=\"{PNG}\"\nserver-name=\"lab\"\n"},
 	{Key: "redis", Type: "redis", Port: 6379, TCP: true},
 	{Key: "echo", Type: "echo", Port: 7, TCP: true, UDP: true},
 	{Key: "cwmp", Type: "cwmp", Port: 7547, TCP: true},
@@ -75,11 +77,7 @@ func Body(fsBase string, keys []string) string {
 		}
 		fmt.Fprintf(&b, "[service.%s]\ntype=%q\n", p.Key, p.Type)
 		if p.Extra != "" {
-			if strings.Contains(p.Extra, "%q") {
-				fmt.Fprintf(&b, p.Extra, fsBase)
-			} else {
-				b.WriteString(p.Extra)
-			}
+			b.WriteString(strings.NewReplacer("{FS}", fsBase, "{PNG}", filepath.Join(fsBase, "screen.png")).Replace(p.Extra))
 		}
 		b.WriteString("\n")
 		if p.TCP {
@@ -115,6 +113,15 @@ func StartInstance(keys []string) (*Instance, error) {
 	fs := filepath.Join(dir, "ftpbase-"+lab.NextID())
 	if err := os.MkdirAll(fs, 0755); err != nil {
 		return nil, err
+	}
+	// a small screen image for the vnc service
+	img := image.NewRGBA(image.Rect(0, 0, 16, 12))
+	for i := range img.Pix {
+		img.Pix[i] = byte(i * 7)
+	}
+	if f, err := os.Create(filepath.Join(fs, "screen.png")); err == nil {
+		png.Encode(f, img)
+		f.Close()
 	}
 	srv, cap, err := lab.StartWithCapture(Body(fs, keys), true)
 	if err != nil {
